@@ -24,6 +24,11 @@
 (*              buckettime, time, duration, durationformat or of the nested        *)
 (*              round trips - "val" with the exact text, or "any" outside the      *)
 (*              specified domain                                                   *)
+(*   detection  DetectShape: the five unmistakable text shapes for which the         *)
+(*              documented format detection ("auto", "cache", format omitted) is     *)
+(*              demanded; Expect is what a FRESHLY compiled expression answers -     *)
+(*              sequences of evaluations of one compiled expression are in           *)
+(*              TimeCalHist.tla                                                      *)
 (* Text that is data crosses as sequences of byte values; format, zone, bucket and *)
 (* attribute names are tags (TLA+ strings).                                        *)
 EXTENDS Bytes
@@ -425,27 +430,62 @@ ExpAttr(c, zd) ==
 \* explicit layouts a text can be read with: full date, fields ParseM knows
 ParseFormat(fmt) == fmt \in KnownFormats /\ Parseable(Layout(fmt)) /\ HasDate(Layout(fmt))
 
+\* ---------------------------------------------------------------- format detection ("auto", "cache", format omitted)
+\* The documentation promises that the format of a date is resolved; the specification demands it only for
+\* five unmistakable shapes (the strict reading of exactly one of them accepts the text):
+\*   rfc3339z  2006-01-02T15:04:05Z          rfc3339o  2006-01-02T15:04:05+07:00
+\*   ymdhmso   2006-01-02 15:04:05 -0700     ymdhms    2006-01-02 15:04:05 (read in the zone argument)
+\*   rfc1123z  Mon, 02 Jan 2006 15:04:05 -0700
+\* and that a text without any digit (Garbage) or the empty text is no date: the error marker.
+DetectShapes == <<"rfc3339o", "rfc3339z", "ymdhmso", "ymdhms", "rfc1123z">>
+ShapeFormat(sh) ==
+  CASE sh \in {"rfc3339o", "rfc3339z"} -> "RFC3339"
+    [] sh = "ymdhmso" -> "2006-01-02 15:04:05 -0700"
+    [] sh = "ymdhms"  -> "2006-01-02 15:04:05"
+    [] sh = "rfc1123z" -> "RFC1123Z"
+ShapeAccepts(sh, x) ==
+  /\ ParseM(Layout(ShapeFormat(sh)), x).ok
+  /\ (sh = "rfc3339z" => x[Len(x)] = 90) /\ (sh = "rfc3339o" => x[Len(x)] # 90)
+DetectShape(x) ==        \* "" : none of the shapes
+  LET S == {i \in 1..Len(DetectShapes) : ShapeAccepts(DetectShapes[i], x)} IN IF S = {} THEN "" ELSE DetectShapes[MinOf(S)]
+SameFamily(a, b) == a = b \/ {a, b} = {"rfc3339o", "rfc3339z"}      \* Z and +hh:mm are both RFC 3339: mixing them is left open
+Garbage(x) == x # <<>> /\ \A i \in 1..Len(x) : x[i] \in {120, 35, 63}          \* x # ?
+
+\* the text x read with the explicit layout fmt in zone zd
+ExpTimeAs(fmt, x, zd) ==
+  LET r == ParseM(Layout(fmt), x) IN
+  IF ~r.ok THEN (IF FractionLike(x) THEN AnyV ELSE Val(mPARSE))
+  ELSE LET q == Resolve(r, zd) IN
+       IF q.k = "one" /\ InRange(q.t) THEN Val(UnixDigits(q.t)) ELSE AnyV
+
+\* the bucket is the truncated wall-clock reading the text itself carries
+ExpBucketAs(kind, fmt, x, zd) ==
+  LET r == ParseM(Layout(fmt), x) IN
+  IF ~r.ok THEN (IF FractionLike(x) THEN AnyV ELSE Val(mPARSE))
+  ELSE LET q == Resolve(r, zd) IN
+       IF q.k \in {"one", "two"} /\ r.y >= 1969 /\ r.y <= 2101 THEN Val(Format(BucketLayout(kind), r)) ELSE AnyV
+
+Detecting(c) == c.f \in {"time", "buckettime"} /\ (~HasFmt(c) \/ c.fmt \in {"auto", "cache", ""})
+
+\* the first evaluation of a freshly compiled expression (and every evaluation with "auto")
 ExpTime(c, zd) ==
-  IF ~HasFmt(c) \/ c.fmt \in {"auto", "cache"} THEN
-     \* format detection: only consistency with the explicit format on RFC3339 text
-     LET r == ParseM(Layout("RFC3339"), c.x)
-         q == Resolve(r, zd)
-     IN IF r.ok /\ InRange(q.t) THEN Val(UnixDigits(q.t)) ELSE AnyV
+  IF Detecting(c) THEN
+     LET sh == DetectShape(c.x) IN
+     IF c.x = <<>> \/ Garbage(c.x) THEN Val(mPARSE)
+     ELSE IF sh = "" THEN AnyV ELSE ExpTimeAs(ShapeFormat(sh), c.x, zd)
   ELSE IF ~ParseFormat(c.fmt) THEN AnyV
-  ELSE LET r == ParseM(Layout(c.fmt), c.x) IN
-       IF ~r.ok THEN (IF FractionLike(c.x) THEN AnyV ELSE Val(mPARSE))
-       ELSE LET q == Resolve(r, zd) IN
-            IF q.k = "one" /\ InRange(q.t) THEN Val(UnixDigits(q.t)) ELSE AnyV
+  ELSE ExpTimeAs(c.fmt, c.x, zd)
 
 ExpBucket(c, zd) ==
   LET kind == BucketKind(c.b) IN
   IF c.b = "bogus" THEN CErr(mENUM)
-  ELSE IF kind = "none" \/ ~HasFmt(c) \/ ~ParseFormat(c.fmt) THEN AnyV
-  ELSE LET r == ParseM(Layout(c.fmt), c.x) IN
-       IF ~r.ok THEN (IF FractionLike(c.x) THEN AnyV ELSE Val(mPARSE))
-       ELSE LET q == Resolve(r, zd) IN
-            \* the bucket is the truncated wall-clock reading the text itself carries
-            IF q.k \in {"one", "two"} /\ r.y >= 1969 /\ r.y <= 2101 THEN Val(Format(BucketLayout(kind), r)) ELSE AnyV
+  ELSE IF kind = "none" THEN AnyV
+  ELSE IF Detecting(c) THEN
+     LET sh == DetectShape(c.x) IN
+     IF c.x = <<>> \/ Garbage(c.x) THEN Val(mPARSE)
+     ELSE IF sh = "" THEN AnyV ELSE ExpBucketAs(kind, ShapeFormat(sh), c.x, zd)
+  ELSE IF ~ParseFormat(c.fmt) THEN AnyV
+  ELSE ExpBucketAs(kind, c.fmt, c.x, zd)
 
 \* {time {timeformat t F Z} F Z}: the instant again, to the precision the layout carries
 ExpRoundTrip(c, zd) ==
